@@ -159,6 +159,100 @@ pub fn c13_t05_trunc<N: Nd>(nd: &mut N) {
     crate::cover!(m.destination.len() == 9, "t5 nine-character destination reachable");
 }
 
+// ---- which bits reach the text decoder (fixed-width fields of 20 / 7 / 4 / 3 characters): the decoder is replaced by
+// raw_text_stub (character i = 0x21 + 6-bit value i of the range), so that the whole payload can stay symbolic; natively the
+// real decoder runs and the same field is compared with the reference decode + trim of the same range.
+#[inline(always)]
+fn wired(d: &[u8], off: usize, k: usize, s: &str) -> bool {
+    #[cfg(kani)]
+    {
+        let out = s.as_bytes();
+        if out.len() != k {
+            return false;
+        }
+        let mut i = 0;
+        let mut ok = true;
+        while i < k {
+            if out[i] != 0x21 + bits(d, off + 6 * i, 6) as u8 {
+                ok = false;
+            }
+            i += 1;
+        }
+        ok
+    }
+    #[cfg(not(kani))]
+    {
+        text_ok(d, off, k, s)
+    }
+}
+
+pub fn c13r_t24a<N: Nd>(nd: &mut N) {
+    use ais::messages::static_data_report::{MessagePart, StaticDataReport};
+    let d: [u8; 20] = nd.bytes();
+    nd.assume(bits(&d, 38, 2) == 0);
+    let m = must!(StaticDataReport::parse(&d), "a 160-bit type 24 part A payload must decode");
+    match &m.message_part {
+        MessagePart::PartA { vessel_name } => {
+            assert!(wired(&d, 40, 20, vessel_name), "C13 t24a vessel name = the 20 characters at bit 40");
+            crate::cover!(d[5] == 0x12, "t24a harness end reachable");
+        }
+        _ => assert!(false, "part number 0 is part A"),
+    }
+}
+pub fn c13r_t24b<N: Nd>(nd: &mut N) {
+    use ais::messages::static_data_report::{MessagePart, StaticDataReport};
+    let d: [u8; 21] = nd.bytes();
+    nd.assume(bits(&d, 38, 2) == 1);
+    let m = must!(StaticDataReport::parse(&d), "a 168-bit type 24 part B payload must decode");
+    match &m.message_part {
+        MessagePart::PartB { vendor_id, model_serial, callsign, dimension_to_bow, .. } => {
+            assert!(wired(&d, 48, 3, vendor_id), "C13 t24b vendor id = the 3 characters at bit 48");
+            assert!(wired(&d, 66, 4, model_serial), "C13 t24b model/serial text = the 4 characters at bit 66");
+            assert!(wired(&d, 90, 7, callsign), "C13 t24b call sign = the 7 characters at bit 90");
+            assert!(*dimension_to_bow as u64 == bits(&d, 132, 9), "C13 t24b field after the texts");
+            crate::cover!(d[7] == 0x34, "t24b harness end reachable");
+        }
+        _ => assert!(false, "part number 1 is part B"),
+    }
+}
+pub fn c13r_t19<N: Nd>(nd: &mut N) {
+    use ais::messages::extended_class_b_position_report::ExtendedClassBPositionReport;
+    let d: [u8; 39] = nd.bytes();
+    let m = must!(ExtendedClassBPositionReport::parse(&d), "a 312-bit type 19 payload must decode");
+    assert!(wired(&d, 143, 20, &m.name), "C13 t19 name = the 20 characters at bit 143");
+    assert!(m.dimension_to_bow as u64 == bits(&d, 271, 9), "C13 t19 field after the text");
+    crate::cover!(d[20] == 0x56, "t19 harness end reachable");
+}
+pub fn c13r_t21<N: Nd>(nd: &mut N) {
+    use ais::messages::aid_to_navigation_report::AidToNavigationReport;
+    let d: [u8; 34] = nd.bytes();
+    let m = must!(AidToNavigationReport::parse(&d), "a 272-bit type 21 payload must decode");
+    assert!(wired(&d, 43, 20, &m.name), "C13 t21 name = the 20 characters at bit 43");
+    assert!(m.dimension_to_bow as u64 == bits(&d, 219, 9), "C13 t21 field after the text");
+    crate::cover!(d[10] == 0x78, "t21 harness end reachable");
+}
+pub fn c13r_t05<N: Nd>(nd: &mut N) {
+    use ais::messages::static_and_voyage_related_data::StaticAndVoyageRelatedData;
+    let d: [u8; 53] = nd.bytes();
+    let m = must!(StaticAndVoyageRelatedData::parse(&d), "a 424-bit type 5 payload must decode");
+    assert!(wired(&d, 70, 7, &m.callsign), "C13 t5 call sign = the 7 characters at bit 70");
+    assert!(wired(&d, 112, 20, &m.vessel_name), "C13 t5 vessel name = the 20 characters at bit 112");
+    assert!(wired(&d, 302, 20, &m.destination), "C13 t5 destination = the 20 characters at bit 302");
+    assert!(m.dimension_to_bow as u64 == bits(&d, 240, 9), "C13 t5 field between the texts");
+    crate::cover!(d[30] == 0x9a, "t5 harness end reachable");
+}
+pub fn c13r_t05_trunc<N: Nd>(nd: &mut N) {
+    use ais::messages::static_and_voyage_related_data::StaticAndVoyageRelatedData;
+    let d: [u8; 45] = nd.bytes();
+    let m = must!(StaticAndVoyageRelatedData::parse(&d), "a truncated type 5 payload must decode");
+    assert!(wired(&d, 302, 9, &m.destination), "C13 t5 truncated destination = the 9 characters at bit 302");
+    crate::cover!(d[40] == 0xbc, "t5 truncated harness end reachable");
+}
+
+pub mod wr {
+    use super::*;
+    crate::harnesses!(LR; rawtext; unwind 23; c13r_t24a, c13r_t24b, c13r_t19, c13r_t21, c13r_t05, c13r_t05_trunc);
+}
 pub mod w8 {
     use super::*;
     crate::harnesses!(L8; utf8; unwind 10; c13_t24b, c13_t14_k01, c13_t14_k02, c13_t14_k04, c13_t14_k05, c13_t14_k06, c13_t14_k08,
